@@ -109,7 +109,9 @@ func luckyNew(cap, pick int64) {
 	w.Case("lucky.new", "", lib.V(lib.I(cap), lib.I(pick)), lib.Bool(pan))
 }
 
-func luckyHist(cap, pick int, ops []lop, tags string) {
+func luckyHist(cap, pick int, ops []lop, tags string) { luckyHistK("lucky.hist", cap, pick, ops, tags) }
+
+func luckyHistK(kind string, cap, pick int, ops []lop, tags string) {
 	var f measurements.Filter
 	if cap == 0 {
 		f = &client.LuckyPacketFilter{}
@@ -132,7 +134,7 @@ func luckyHist(cap, pick int, ops []lop, tags string) {
 			}
 		}
 	}()
-	w.Case("lucky.hist", tags, lib.V(lib.I(int64(cap)), lib.I(int64(pick)), fmtLops(ops)), lib.V(lib.IL(outs), lib.Bool(pan)))
+	w.Case(kind, tags, lib.V(lib.I(int64(cap)), lib.I(int64(pick)), fmtLops(ops)), lib.V(lib.IL(outs), lib.Bool(pan)))
 }
 
 // ---- Ntimed filter ----
@@ -198,7 +200,9 @@ func runNops(f *client.NtimedFilter, ops []nop, br *int64, seen map[int64]int, p
 	return outs
 }
 
-func ntimedHist(ops []nop, tags string) {
+func ntimedHist(ops []nop, tags string) { ntimedHistK("ntimed.hist", ops, tags) }
+
+func ntimedHistK(kind string, ops []nop, tags string) {
 	var br int64
 	seen := map[int64]int{}
 	f := client.NewNtimedFilter(slog.New(branchHandler{&br}))
@@ -241,10 +245,85 @@ func ntimedHist(ops []nop, tags string) {
 	if len(starts) > 0 && starts[len(starts)-1] > 0 {
 		t = append(t, "resetpt")
 	}
-	if seen[2] > 0 || seen[3] > 0 || seg4 {
+	if seen[2] > 0 || seen[3] > 0 || seg4 || kind == "ntimed.wild" {
 		t = append(t, "nt")
 	}
-	w.Case("ntimed.hist", strings.Join(t, ","), fmtNops(ops), lib.V(lib.IL(outs), lib.IL(starts), lib.IL(fresh), lib.Bool(pan)))
+	w.Case(kind, strings.Join(t, ","), fmtNops(ops), lib.V(lib.IL(outs), lib.IL(starts), lib.IL(fresh), lib.Bool(pan)))
+}
+
+// luckyReset: filter A runs pre, Reset, suf; a newly constructed filter B runs suf.
+// Reported: the outputs of A on suf and of B ("Reset equals fresh").
+func luckyReset(cap, pick int, pre, suf []lop, tags string) {
+	mk := func() measurements.Filter {
+		if cap == 0 {
+			return &client.LuckyPacketFilter{}
+		}
+		return client.NewLuckyPacketFilter(cap, pick)
+	}
+	pan := false
+	run := func(f measurements.Filter, ops []lop, keep bool) (outs []int64) {
+		defer func() {
+			if recover() != nil {
+				pan = true
+			}
+		}()
+		for _, o := range ops {
+			if o.do {
+				x := int64(f.Do(o.s.t0.time(), o.s.t1.time(), o.s.t2.time(), o.s.t3.time()))
+				if keep {
+					outs = append(outs, x)
+				}
+			} else {
+				f.Reset()
+			}
+		}
+		return outs
+	}
+	a := mk()
+	run(a, pre, false)
+	a.Reset()
+	outsA := run(a, suf, true)
+	outsB := run(mk(), suf, true)
+	w.Case("lucky.reset", tags, lib.V(lib.I(int64(cap)), lib.I(int64(pick)), fmtLops(pre), fmtLops(suf)),
+		lib.V(lib.IL(outsA), lib.IL(outsB), lib.Bool(pan)))
+}
+
+// ntimedReset: filter A runs pre, mid (Resets; none when suf runs under another
+// epoch), suf; a newly constructed filter B runs suf.
+func ntimedReset(pre, mid, suf []nop, tags string) {
+	var br int64
+	seen := map[int64]int{}
+	pan := false
+	a := client.NewNtimedFilter(slog.New(branchHandler{&br}))
+	runNops(a, pre, &br, map[int64]int{}, &pan)
+	runNops(a, mid, &br, map[int64]int{}, &pan)
+	outsA := runNops(a, suf, &br, seen, &pan)
+	outsB := runNops(client.NewNtimedFilter(nil), suf, nil, nil, &pan)
+	t := []string{}
+	if tags != "" {
+		t = append(t, tags)
+	}
+	for b := int64(1); b <= 4; b++ {
+		if seen[b] > 0 {
+			t = append(t, fmt.Sprintf("b%d", b))
+		}
+	}
+	npre, nsuf := 0, 0
+	for _, o := range pre {
+		if o.do {
+			npre++
+		}
+	}
+	for _, o := range suf {
+		if o.do {
+			nsuf++
+		}
+	}
+	if npre >= 4 && nsuf >= 5 && (seen[2] > 0 || seen[3] > 0) {
+		t = append(t, "nt")
+	}
+	w.Case("ntimed.reset", strings.Join(t, ","), lib.V(fmtNops(pre), fmtNops(mid), fmtNops(suf)),
+		lib.V(lib.IL(outsA), lib.IL(outsB), lib.Bool(pan)))
 }
 
 // ---- generators ----
@@ -499,6 +578,333 @@ func genNtimed(r *lib.Rng, long bool) {
 	ntimedHist(ops, t)
 }
 
+// ---- the wild range: samples the closeness theorem's 2^62 ns range excludes, and degenerate ones ----
+
+const maxI64 = int64(^uint64(0) >> 1)
+
+// edgeSample returns a sample of one family and the family's tag.
+func edgeSample(r *lib.Rng) (sample, string) {
+	t0 := base.add(r.Range(0, 1000000000000))
+	d := func() int64 { return lib.Pick(r, int64(0), 1, 999, 1000000, 50000000) + r.Range(0, 3) }
+	mag := func(lo, hi uint) *big.Int { // a magnitude in [2^lo, 2^hi) ns
+		b := new(big.Int).Lsh(big.NewInt(1), lo)
+		span := new(big.Int).Sub(new(big.Int).Lsh(big.NewInt(1), hi), b)
+		x := new(big.Int).SetUint64(r.U64())
+		x.Lsh(x, 20).Add(x, new(big.Int).SetUint64(r.U64()>>44)).Mod(x, span)
+		return b.Add(b, x)
+	}
+	shift := func(t ts, b *big.Int, neg bool) ts {
+		x, _ := new(big.Int).SetString(t.String(), 10)
+		if neg {
+			x.Sub(x, b)
+		} else {
+			x.Add(x, b)
+		}
+		return tsOfBig(x)
+	}
+	switch r.Intn(12) {
+	case 0: // identical timestamps
+		return sample{t0, t0, t0, t0}, "same"
+	case 1: // zero delay, some offset
+		t1 := t0.add(r.Range(-1000000000, 1000000000))
+		return sample{t0, t1, t1, t0}, "zerodelay"
+	case 2: // negative round trip: the reply arrives before the request left
+		t1 := t0.add(r.Range(-1000000, 1000000))
+		return sample{t0, t1, t1.add(d()), t0.add(-1 - d())}, "negrtd"
+	case 3: // negative server processing time
+		t1 := t0.add(d() + r.Range(-1000000, 1000000))
+		return sample{t0, t1, t1.add(-1 - d()), t0.add(d())}, "negproc"
+	case 4: // hi < lo: cRx - sTx < cTx - sRx
+		t1 := t0.add(-d() - 1)
+		return sample{t0, t1, t1.add(d() + 5), t1.add(3)}, "hiltlo"
+	case 5, 6: // one-way differences between 2^62 and 2^63 ns: beyond the closeness range, not saturating
+		neg := r.Intn(2) == 0
+		t1 := shift(t0, mag(62, 63), neg)
+		t2 := t1.add(d())
+		if r.Intn(3) == 0 { // the way back differs in sign
+			t2 = shift(t0, mag(62, 63), !neg)
+		}
+		return sample{t0, t1, t2, t0.add(d())}, "far"
+	case 7: // more than 292 years apart: Time.Sub saturates, one way or both, either sign
+		neg := r.Intn(2) == 0
+		t1 := shift(t0, mag(63, 66), neg)
+		t2 := t1.add(d())
+		switch r.Intn(3) {
+		case 0:
+			t2 = t0.add(d())
+		case 1:
+			t2 = shift(t0, mag(63, 66), !neg)
+		}
+		return sample{t0, t1, t2, t0.add(d())}, "sat"
+	case 8: // the corner: both differences saturated at +292 years (Inv(int64(2^63)) = MaxInt64)
+		t1 := shift(t0, mag(63, 66), true)
+		return sample{t0, t1, t1.add(d()), t0.add(d())}, "corner"
+	case 9: // around the corner: lo + hi within 2^15 of 2^64 - 2^14, not saturated
+		a, b := r.Range(0, 1<<14), r.Range(0, 1<<14)
+		if r.Intn(2) == 0 {
+			a, b = r.Range(0, 1<<11), r.Range(0, 1<<11)
+		}
+		t1 := shift(t0, new(big.Int).SetInt64(maxI64-a), true)
+		t3 := t0.add(d())
+		t2 := shift(t3, new(big.Int).SetInt64(maxI64-b), true)
+		return sample{t0, t1, t2, t3}, "nearcorner"
+	case 10: // the mirror image: both differences at -292 years (Inv saturates, correct sign)
+		a, b := r.Range(0, 1<<12), r.Range(0, 1<<12)
+		t1 := shift(t0, new(big.Int).SetInt64(maxI64-a), false)
+		t3 := t0.add(d())
+		t2 := shift(t3, new(big.Int).SetInt64(maxI64-b), false)
+		if r.Intn(3) == 0 {
+			t1, t2 = shift(t0, mag(63, 66), false), shift(t3, mag(63, 66), false)
+		}
+		return sample{t0, t1, t2, t3}, "negcorner"
+	default:
+		return wildSample(r), "mixed"
+	}
+}
+
+func tagSet(m map[string]bool, extra ...string) string {
+	var t []string
+	for _, k := range []string{"same", "zerodelay", "negrtd", "negproc", "hiltlo", "far", "sat", "corner", "nearcorner", "negcorner", "mixed"} {
+		if m[k] {
+			t = append(t, k)
+		}
+	}
+	return strings.Join(append(t, extra...), ",")
+}
+
+func genLuckyWild(r *lib.Rng) {
+	cap := 1 + r.Intn(12)
+	pick := 1 + r.Intn(cap+1)
+	if r.Intn(20) == 0 {
+		cap, pick = 0, 0
+	}
+	n := 1 + r.Intn(2*cap+6)
+	fam := map[string]bool{}
+	var ops []lop
+	for i := 0; i < n; i++ {
+		if i > 0 && r.Intn(8) == 0 {
+			ops = append(ops, lop{})
+		}
+		var s sample
+		if r.Intn(5) == 0 {
+			s = mkSample(i, genOffset(r, r.Intn(6)), 1000000+int64(i)*977, 500000, 0)
+		} else {
+			var f string
+			s, f = edgeSample(r)
+			fam[f] = true
+		}
+		ops = append(ops, lop{do: true, s: s})
+	}
+	luckyHistK("lucky.wild", cap, pick, ops, tagSet(fam, "wild", "nt"))
+}
+
+func genNtimedWild(r *lib.Rng) {
+	n := 1 + r.Intn(14)
+	fam := map[string]bool{}
+	epoch := lib.Pick(r, uint64(0), 0, 1, 1<<63)
+	var ops []nop
+	for i := 0; i < n; i++ {
+		if i > 0 && r.Intn(8) == 0 {
+			if r.Intn(2) == 0 {
+				ops = append(ops, nop{epoch: epoch})
+			} else {
+				epoch++
+			}
+		}
+		var s sample
+		if r.Intn(4) == 0 {
+			s = mkSample(i, genOffset(r, r.Intn(4)), 2000000+r.Range(0, 100000), 1000000, 0)
+		} else {
+			var f string
+			s, f = edgeSample(r)
+			fam[f] = true
+		}
+		ops = append(ops, nop{do: true, epoch: epoch, s: s})
+	}
+	ntimedHistK("ntimed.wild", ops, tagSet(fam, "wild"))
+}
+
+// ---- Reset equals fresh ----
+
+// ntRegime is a delay process; huge regimes leave averages whose rounding residue
+// survives the first update after a partial Reset.
+type ntRegime struct {
+	out, back, jit, off, drift int64
+}
+
+func genRegime(r *lib.Rng, huge bool) ntRegime {
+	g := ntRegime{
+		out:   lib.Pick(r, int64(100000), 1000000, 10000000, 50000000, 500),
+		jit:   0,
+		off:   genOffset(r, r.Intn(4)),
+		drift: lib.Pick(r, int64(0), 0, 1, 1000, -1000),
+	}
+	g.back = g.out
+	if r.Intn(3) == 0 {
+		g.back = lib.Pick(r, int64(100000), 1000000, 10000000, 50000000, 500)
+	}
+	g.jit = lib.Pick(r, int64(1), 1000, g.out/10+1, g.out/3+1)
+	if huge {
+		g.off = lib.Pick(r, int64(1), -1) * r.Range(1<<55, 1<<61)
+	}
+	return g
+}
+
+// sample i of the regime; kind 0 regular, 1 slow way out, 2 slow way back, 3 both slow, 4 fast way out
+func (g ntRegime) sample(r *lib.Rng, seq, i int, kind int) sample {
+	out := g.out + r.Range(-g.jit, g.jit)
+	back := g.back + r.Range(-g.jit, g.jit)
+	if out < 0 {
+		out = 0
+	}
+	if back < 0 {
+		back = 0
+	}
+	k := lib.Pick(r, int64(2), 5, 40, 1000)
+	switch kind {
+	case 1:
+		out *= k
+	case 2:
+		back *= k
+	case 3:
+		out *= k
+		back *= k
+	case 4:
+		out /= k
+	}
+	return mkSample(seq, g.off+int64(i)*g.drift, out+back, out, r.Range(0, 200000))
+}
+
+func genNtimedReset(r *lib.Rng) {
+	a := genRegime(r, r.Intn(2) == 0)
+	b := genRegime(r, r.Intn(6) == 0)
+	if r.Intn(5) == 0 {
+		b = a
+		b.off += r.Range(-1000, 1000)
+	}
+	e0 := lib.Pick(r, uint64(0), 1, 7, 1<<63, ^uint64(0))
+	var pre, mid, suf []nop
+	npre := lib.Pick(r, 1, 2, 3, 4, 5, 8, 12, 21, 30)
+	seq := 0
+	for i := 0; i < npre; i++ {
+		kind := 0
+		if i >= 3 && r.Intn(3) == 0 {
+			kind = 1 + r.Intn(4)
+		}
+		pre = append(pre, nop{do: true, epoch: e0, s: a.sample(r, seq, i, kind)})
+		seq++
+	}
+	e1 := e0
+	how := ""
+	switch r.Intn(5) {
+	case 0: // explicit Reset, same epoch
+		mid = append(mid, nop{epoch: e0})
+		how = "explicit"
+	case 1: // the clock stepped: the next Do sees another epoch
+		e1 = e0 + lib.Pick(r, uint64(1), ^uint64(0), 2, 1<<63)
+		how = "epoch"
+	case 2: // Reset under the new epoch
+		e1 = e0 + 1
+		mid = append(mid, nop{epoch: e1})
+		how = "explicit,epoch"
+	case 3: // twice
+		mid = append(mid, nop{epoch: e0}, nop{epoch: e0})
+		how = "explicit,twice"
+	default: // Reset under one epoch, samples under the next
+		mid = append(mid, nop{epoch: e0})
+		e1 = e0 + 1
+		how = "explicit,epoch"
+	}
+	nsuf := lib.Pick(r, 1, 3, 4, 5, 6, 8, 12, 25)
+	warm := 4 + r.Intn(3)
+	for i := 0; i < nsuf; i++ {
+		kind := 0
+		if i >= warm && r.Intn(2) == 0 {
+			kind = lib.Pick(r, 1, 1, 2, 2, 3, 4)
+		} else if i == 2 || i == 3 {
+			if r.Intn(3) == 0 {
+				kind = 1 + r.Intn(2)
+			}
+		}
+		suf = append(suf, nop{do: true, epoch: e1, s: b.sample(r, seq, i, kind)})
+		seq++
+	}
+	ntimedReset(pre, mid, suf, how)
+}
+
+func genLuckyReset(r *lib.Rng) {
+	cap := 1 + r.Intn(8)
+	switch r.Intn(5) {
+	case 0:
+		cap = 1 + r.Intn(16)
+	case 1:
+		cap = lib.Pick(r, 1, 2, 3)
+	}
+	pick := 1 + r.Intn(cap+2)
+	if r.Intn(4) == 0 {
+		pick = 1
+	}
+	uncfg := r.Intn(30) == 0
+	npre := 1 + r.Intn(3*cap+2)
+	nsuf := 1 + r.Intn(2*cap+3)
+	ties := r.Intn(8) == 0
+	// the samples before the Reset are the luckier ones (lower delays): a window that
+	// survives the Reset would be preferred; offsets differ by regime
+	step := lib.Pick(r, int64(1), 2, 1000, 999983)
+	perm := make([]int64, npre+nsuf)
+	for i := range perm {
+		perm[i] = int64(i)
+	}
+	shuffle := func(p []int64) {
+		for i := len(p) - 1; i > 0; i-- {
+			j := r.Intn(i + 1)
+			p[i], p[j] = p[j], p[i]
+		}
+	}
+	if r.Intn(3) == 0 {
+		shuffle(perm) // no order between the regimes
+	} else {
+		shuffle(perm[:npre])
+		shuffle(perm[npre:])
+	}
+	offA, offB := genOffset(r, r.Intn(4)), genOffset(r, r.Intn(4))
+	mk := func(i int, off int64) sample {
+		rtd := 1000000 + perm[i]*step
+		if ties {
+			rtd = 1000000 + int64(r.Intn(3))*step
+		}
+		return mkSample(i, off+r.Range(-50000, 50000), rtd, rtd/2, r.Range(0, 3)*1000)
+	}
+	var pre, suf []lop
+	for i := 0; i < npre; i++ {
+		if i > 0 && r.Intn(12) == 0 {
+			pre = append(pre, lop{})
+		}
+		pre = append(pre, lop{do: true, s: mk(i, offA)})
+	}
+	for i := 0; i < nsuf; i++ {
+		if i > 0 && r.Intn(15) == 0 {
+			suf = append(suf, lop{})
+		}
+		suf = append(suf, lop{do: true, s: mk(npre+i, offB)})
+	}
+	t := []string{}
+	if uncfg {
+		cap, pick = 0, 0
+		t = append(t, "uncfg")
+	}
+	if ties {
+		t = append(t, "ties")
+	}
+	if npre >= cap && !uncfg {
+		t = append(t, "full")
+	}
+	if !uncfg && cap >= 2 && npre >= 2 {
+		t = append(t, "nt")
+	}
+	luckyReset(cap, pick, pre, suf, strings.Join(t, ","))
+}
+
 // ---- fixed histories (corpus) ----
 
 func corpus() {
@@ -573,6 +979,27 @@ func parseOps(tok []string, i int) [][]string {
 	return out
 }
 
+// parseLists reads consecutive "[ [..] .. ]" groups starting at tok[i].
+func parseLists(tok []string, i int) (out [][][]string) {
+	for i < len(tok) {
+		l := parseOps(tok, i)
+		out = append(out, l)
+		depth := 0
+		for {
+			if tok[i] == "[" {
+				depth++
+			} else if tok[i] == "]" {
+				depth--
+			}
+			i++
+			if depth == 0 {
+				break
+			}
+		}
+	}
+	return out
+}
+
 func sampleOf(f []string) sample {
 	return sample{parseTs(f[0]), parseTs(f[1]), parseTs(f[2]), parseTs(f[3])}
 }
@@ -582,7 +1009,7 @@ func replay(kind, tags, args string) {
 	switch kind {
 	case "lucky.new":
 		luckyNew(lib.ParseI(tok[0]), lib.ParseI(tok[1]))
-	case "lucky.hist":
+	case "lucky.hist", "lucky.wild":
 		var ops []lop
 		for _, o := range parseOps(tok, 2) {
 			if o[0] == "1" {
@@ -595,8 +1022,44 @@ func replay(kind, tags, args string) {
 		if cap < 0 || cap > 0 && pick <= 0 {
 			return
 		}
-		luckyHist(int(cap), int(pick), ops, tags)
-	case "ntimed.hist":
+		luckyHistK(kind, int(cap), int(pick), ops, tags)
+	case "lucky.reset":
+		cap, pick := lib.ParseI(tok[0]), lib.ParseI(tok[1])
+		if cap < 0 || cap > 0 && pick <= 0 {
+			return
+		}
+		rd := func(ol [][]string) (ops []lop) {
+			for _, o := range ol {
+				if o[0] == "1" {
+					ops = append(ops, lop{do: true, s: sampleOf(o[1:])})
+				} else {
+					ops = append(ops, lop{})
+				}
+			}
+			return ops
+		}
+		lists := parseLists(tok, 2)
+		luckyReset(int(cap), int(pick), rd(lists[0]), rd(lists[1]), tags)
+	case "ntimed.reset":
+		rd := func(ol [][]string) (ops []nop) {
+			for _, o := range ol {
+				if o[0] == "1" {
+					ops = append(ops, nop{do: true, epoch: lib.ParseU(o[1]), s: sampleOf(o[2:])})
+				} else {
+					ops = append(ops, nop{epoch: lib.ParseU(o[1])})
+				}
+			}
+			return ops
+		}
+		lists := parseLists(tok, 0)
+		how := []string{}
+		for _, x := range strings.Split(tags, ",") {
+			if x == "explicit" || x == "epoch" || x == "twice" {
+				how = append(how, x)
+			}
+		}
+		ntimedReset(rd(lists[0]), rd(lists[1]), rd(lists[2]), strings.Join(how, ","))
+	case "ntimed.hist", "ntimed.wild":
 		var ops []nop
 		for _, o := range parseOps(tok, 0) {
 			if o[0] == "1" {
@@ -607,11 +1070,13 @@ func replay(kind, tags, args string) {
 		}
 		t := []string{}
 		for _, x := range strings.Split(tags, ",") {
-			if x == "wild" {
+			switch x {
+			case "b1", "b2", "b3", "b4", "resetpt", "nt", "":
+			default:
 				t = append(t, x)
 			}
 		}
-		ntimedHist(ops, strings.Join(t, ","))
+		ntimedHistK(kind, ops, strings.Join(t, ","))
 	}
 }
 
@@ -637,6 +1102,14 @@ func main() {
 		genNtimed(r, i%8 == 0)
 		if i%50 == 0 {
 			luckyNew(r.Range(-3, 20), r.Range(-3, 20))
+		}
+		if i%3 == 0 {
+			genLuckyReset(r)
+			genNtimedReset(r)
+		}
+		if i%4 == 0 {
+			genLuckyWild(r)
+			genNtimedWild(r)
 		}
 	}
 	fmt.Fprintf(os.Stderr, "c17: %d cases\n", w.N())
